@@ -160,6 +160,14 @@ def configurations():
         "isimip_tas_months": ("tas", lambda: ISIMIP.from_variable("tas", running_window_mode=False), False),
         "isimip_pr_months_notrendwithin": ("pr", lambda: ISIMIP.from_variable("pr", running_window_mode=False, trend_transfer_only_for_values_within_threshold=False), True),
         "isimip_hurs_months_param": ("hurs", lambda: ISIMIP.from_variable("hurs", running_window_mode=False, nonparametric_qm=False), True),
+        # series shorter than a year: every month is one contiguous block (a slice would be a view)
+        "isimip_pr_months_short": ("pr@short", lambda: ISIMIP.from_variable("pr", running_window_mode=False), True),
+        "isimip_hurs_months_short": ("hurs@short", lambda: ISIMIP.from_variable("hurs", running_window_mode=False), True),
+        "isimip_prsnratio_months_short": ("prsnratio@short", lambda: ISIMIP.from_variable("prsnratio", running_window_mode=False), True),
+        # a running window that covers the whole year: the window index set is every time step
+        "ls_tas_fullwindow": ("tas", lambda: LinearScaling.from_variable("tas", running_window_mode=True, running_window_length=367, running_window_step_length=367), False),
+        "sdm_pr_fullwindow": ("pr", lambda: ScaledDistributionMapping.from_variable("pr", running_window_mode=True, running_window_length=367, running_window_step_length=367), False),
+        "isimip_hurs_fullwindow": ("hurs", lambda: ISIMIP.from_variable("hurs", running_window_mode=True, running_window_length=367, running_window_step_length=367), True),
     }
     _ = gen_PrecipitationHurdleModel
     return cfgs
@@ -442,10 +450,13 @@ def call(deb, inp, entry, seed):
 
 def make_series(var, nprs, tier, entry, dtype, times_kind, conv=False):
     n_o = 730 if tier == "quick" else 1095
+    extra = 1
+    if var.endswith("@short"):
+        var, n_o, extra = var[:-6], 365, 0  # exactly one (non-leap) calendar year: every month is one contiguous block
     y0 = 1990
     dO = dates_from(datetime.date(y0, 1, 1), n_o, times_kind)
-    dH = dates_from(datetime.date(y0, 1, 1), n_o + 1, times_kind)
-    dF = dates_from(datetime.date(y0 + 60, 1, 1), n_o + 2, times_kind)
+    dH = dates_from(datetime.date(y0, 1, 1), n_o + extra, times_kind)
+    dF = dates_from(datetime.date(y0 + 61, 1, 1), n_o + 2 * extra, times_kind)
     base = var.replace("_nan", "")
     shape = (1, 2) if entry == "apply" else ()
     arrs = []
@@ -874,12 +885,15 @@ def run(tier, res, force_search=False):
                                          {"config": name, "entry": entry, "layout": layout, "what": "read-only input written"}))
 
     # ---- verdict
-    seen = set()
+    seen, per_what = set(), {}
     for desc, case in problems:
         key = (case.get("config"), case.get("what"))
         if key in seen:
             continue
         seen.add(key)
+        per_what[case.get("what")] = per_what.get(case.get("what"), 0) + 1
+        if per_what[case.get("what")] > 3:  # the same kind of violation in many configurations: three replays are enough
+            continue
         res.violations.append((desc, {"property": PROP, "failing_input": case, "problem": desc,
                                       "signature": {"config": case.get("config"), "what": case.get("what")}}))
     if res.tie_broken and not problems:
